@@ -10,13 +10,18 @@
 
    C09_no_panic_to/from: safe plans never panic, for EVERY well-typed input
    (all nil patterns, all slice lengths, all recursion depths, any user code).
-   The check itself is evaluated inside Coq on the plans of every pair of the
-   correspondence run (and on the Examples below); that `analyse` produces safe
-   plans for EVERY job of the grammar is not proved in general (it is established
-   per pair by evaluating the check): this is the one missing link of C09. *)
+   C09_generated_plans_safe: inside [gen_guard] -- a decidable condition on the
+   INPUTS of `shoot map` (Model/MapperGen.v: plain struct types, embedded fields
+   named after their type, no field named like an embedded struct, zero values
+   exist, every sub-struct pair of two name-matching fields has its own job) --
+   EVERY plan the analysis model produces passes [plans_safe]
+   (Proofs/MapperSafeGenProofs.v), so C09_no_panic_to_gen/from_gen are
+   statements about the generator model for every job of that class, not about
+   a per-pair certificate.  The correspondence run still evaluates the check
+   itself on the plans of every pair, and [gen_guard] next to it. *)
 From Coq Require Import String List ZArith Bool.
 From Shoot Require Import Base.Str Model.MapVal Model.Mapper Model.MapperEval Model.MapperSpec Model.MapperSafe
-     Proofs.MapperValProofs Proofs.MapperSafeProofs Corr.MapperCorr Proofs.MapperExamples Proofs.MapperExampleProofs.
+     Model.MapperGen Proofs.MapperValProofs Proofs.MapperSafeProofs Proofs.MapperSafeGenProofs Corr.MapperCorr Proofs.MapperExamples Proofs.MapperExampleProofs.
 Import ListNotations.
 Local Open Scope string_scope.
 Local Open Scope list_scope.
@@ -39,6 +44,57 @@ Theorem C09_no_panic_from : forall e zf U pe,
     eval_from e zf U pe fuel tn recv arg <> Panic.
 Proof. exact eval_from_no_panic. Qed.
 Print Assumptions C09_no_panic_from.
+
+(* ---- generator level: inside gen_guard the analysis only produces safe plans,
+   whatever the iteration order [sigma] of Go's map ranges ... *)
+Theorem C09_generated_plans_safe : forall sigma e F jobs pe,
+  (forall m x, In x (sigma m) <-> In x m) ->
+  (forall jb, In jb jobs -> j_env jb = e /\ j_fuel jb = F) ->
+  gen_guard e F jobs = true ->
+  penv_of sigma jobs = Some pe ->
+  plans_safe e (S F) pe = true.
+Proof. exact analyse_plans_safe. Qed.
+Print Assumptions C09_generated_plans_safe.
+
+(* ... hence the generated ToX / FromX of such jobs never dereference nil *)
+Theorem C09_no_panic_to_gen : forall sigma e F jobs pe U,
+  (forall m x, In x (sigma m) <-> In x m) ->
+  (forall jb, In jb jobs -> j_env jb = e /\ j_fuel jb = F) ->
+  gen_guard e F jobs = true ->
+  penv_of sigma jobs = Some pe ->
+  forall fuel tn recv,
+    has_ty e recv (TPtr (TNamed PSrc tn)) ->
+    eval_to e (S F) U pe fuel tn recv <> Panic.
+Proof.
+  intros sigma e F jobs pe U Sg JE G PE fuel tn recv T.
+  apply eval_to_no_panic; auto. eapply analyse_plans_safe; eauto.
+Qed.
+Print Assumptions C09_no_panic_to_gen.
+
+Theorem C09_no_panic_from_gen : forall sigma e F jobs pe U,
+  (forall m x, In x (sigma m) <-> In x m) ->
+  (forall jb, In jb jobs -> j_env jb = e /\ j_fuel jb = F) ->
+  gen_guard e F jobs = true ->
+  penv_of sigma jobs = Some pe ->
+  forall fuel tn tp recv arg,
+    find_plans pe tn = Some tp ->
+    has_ty e arg (TPtr (TNamed PDst (tp_dst tp))) ->
+    eval_from e (S F) U pe fuel tn recv arg <> Panic.
+Proof.
+  intros sigma e F jobs pe U Sg JE G PE fuel tn tp recv arg FP T.
+  eapply eval_from_no_panic; eauto. eapply analyse_plans_safe; eauto.
+Qed.
+Print Assumptions C09_no_panic_from_gen.
+
+(* the plans the correspondence evaluates are those of the theorem *)
+Lemma C09_plans_of_is_penv_of : forall ps, plans_of ps = penv_of (fun m => m) (ps_jobs ps).
+Proof. reflexivity. Qed.
+
+(* non-vacuity of the class: the example pairs ex1..ex4 (embedded pointers to
+   depth 2, sub-structs in all forms, mapper funcs, tags) are inside gen_guard *)
+Example C09_example_gen_guard :
+  forallb (fun ps => gen_guard (ps_env ps) (ps_fuel ps) (ps_jobs ps)) [ex1; ex2; ex3; ex4] = true.
+Proof. vm_compute. reflexivity. Qed.
 
 (* ---- a nil receiver / nil argument yields nil *)
 Theorem C09_nil_receiver_gives_nil : forall e zf U pe fuel tn tp,
